@@ -116,7 +116,7 @@ pub fn run(args: &Args) {
                 let (mut wire, mut plain, mut sizes, mut bzflags) = (Vec::new(), Vec::new(), Vec::new(), Vec::new());
                 for _ in 0..nrec {
                     let cap = if args.thorough && rng.chance(1, 10) { 300 * 1024 } else { 4096 };
-                    let n = match rng.below(6) { 0 => 0, 1 => 1, 2 => 2, _ => rng.below(cap) } as usize;
+                    let n = if cap > 4096 { cap - rng.below(1000) as usize as u64 } else { match rng.below(6) { 0 => 0, 1 => 1, 2 => 2, _ => rng.below(cap) } } as usize;
                     let body = match rng.below(3) { 0 => vec![rng.next() as u8; n], _ => rng.bytes(n) };
                     let neg = rng.chance(1, 2);
                     match rng.below(4) {
@@ -132,6 +132,22 @@ pub fn run(args: &Args) {
                 match observe(&bytes, &hdr, &plain) {
                     Err(p) => res.mismatch("violation", "C05/panic", p, json!({"sizes": sizes})),
                     Ok(o) => tr.ev(json!({"file": 1, "total": bytes.len(), "sizes": sizes, "bz": bzflags, "recs": o.recs.iter().map(|r| json!([r.0, r.1, r.2 as u8])).collect::<Vec<_>>(),
+                                          "rt_ok": o.rt_ok && o.concat_ok, "wrongway_ok": o.wrongway_ok, "header_ok": o.header_ok})),
+                }
+            }
+            // multi-block bzip2 streams (the encoder's block size is 100 kB) and day counts 0 / 65536 in the header
+            for (k, day) in [(0u32, 0u32), (1, 65_536), (2, 19_800)] {
+                let (_, mut hdr) = default_header(&l, &mut rng);
+                hdr.insert("date".into(), day.to_be_bytes().to_vec());
+                let hb = l.get("volume_header").encode(&hdr);
+                let bodies = [rng.bytes(300 * 1024 - k as usize), vec![k as u8; 250_000], rng.bytes(100_001)];
+                let wire: Vec<(Vec<u8>, bool)> = bodies.iter().map(|b| (bz(b), k % 2 == 0)).collect();
+                let plain: Vec<Option<Vec<u8>>> = bodies.iter().cloned().map(Some).collect();
+                let bytes = build_file(&hb, &wire);
+                res.case(fnv(&bytes[..4096.min(bytes.len())]), true);
+                match observe(&bytes, &hdr, &plain) {
+                    Err(p) => res.mismatch("violation", "C05/panic", p, json!({"multi_block": k})),
+                    Ok(o) => tr.ev(json!({"file": 1, "total": bytes.len(), "sizes": wire.iter().map(|w| w.0.len()).collect::<Vec<_>>(), "bz": [true, true, true], "recs": o.recs.iter().map(|r| json!([r.0, r.1, r.2 as u8])).collect::<Vec<_>>(),
                                           "rt_ok": o.rt_ok && o.concat_ok, "wrongway_ok": o.wrongway_ok, "header_ok": o.header_ok})),
                 }
             }
